@@ -149,6 +149,8 @@ fn script_status(end: &Value) -> Status {
 }
 impl Handler {
     fn log_req(&self, md: &tonic::metadata::MetadataMap, msgs: Vec<Vec<u8>>, err: Option<&Status>) {
+        // the warm-up call is not part of the judged run, wherever and whenever the server gets to it
+        if md.contains_key("x-lab-warmup") { return; }
         self.log.ev(json!({"e":"srv_req","meta":meta_json(md),"msgs":msgs.iter().map(|m| bytes_json(m)).collect::<Vec<_>>(),
             "err": err.map(|e| e.code() as i32).unwrap_or(-1)}));
     }
@@ -240,6 +242,10 @@ fn client_result_events(log: &Rec, kind: &str, init: Option<&tonic::metadata::Me
         "msgs": msgs.iter().map(|m| bytes_json(m)).collect::<Vec<_>>(), "ok": ok, "st": st, "trailers": tr}));
 }
 
+/// Polls a future once; true if it completed.
+async fn futures_lite_poll_once<F: std::future::Future>(mut f: Pin<&mut F>) -> bool {
+    std::future::poll_fn(|cx| Poll::Ready(f.as_mut().poll(cx).is_ready())).await
+}
 async fn drive_client<T>(mut cl: SvcClient<T>, stim: &Value, log: &Rec)
 where
     T: tonic::client::GrpcService<Body> + Send + Clone,
@@ -260,9 +266,21 @@ where
     let (meta, rejected) = build_meta(&stim["req"]["meta"]);
     // client.warmup: an unrecorded unary call is made first on the same client and connection (it ends however the script says);
     // the judged call is then the client's and the connection's second use and must not be affected
-    if c["warmup"].as_bool().unwrap_or(false) {
+    // client.warmup = "cancel": that first call is dropped by the caller after it has been polled a few times (a cancelled call)
+    let warm = if c["warmup"].is_string() { c["warmup"].as_str().unwrap_or("").to_string() } else if c["warmup"].as_bool().unwrap_or(false) { "full".to_string() } else { String::new() };
+    if !warm.is_empty() {
         crate::labs::REC_PAUSED.store(true, std::sync::atomic::Ordering::SeqCst);
-        let _ = tokio::time::timeout(std::time::Duration::from_secs(30), cl.unary(Request::new(msgs.first().cloned().unwrap_or_default()))).await;
+        {
+            let mut wr = Request::new(msgs.first().cloned().unwrap_or_default());
+            wr.metadata_mut().insert("x-lab-warmup", tonic::metadata::MetadataValue::from_static("1"));
+            let fut = cl.unary(wr);
+            if warm == "cancel" {
+                let mut fut = std::pin::pin!(fut);
+                for _ in 0..3 { if futures_lite_poll_once(fut.as_mut()).await { break; } tokio::task::yield_now().await; }
+            } else { let _ = tokio::time::timeout(std::time::Duration::from_secs(30), fut).await; }
+        }
+        // let the transport and the server see the cancellation / the end of the call before the judged call starts
+        for _ in 0..5 { tokio::task::yield_now().await; }
         crate::labs::REC_PAUSED.store(false, std::sync::atomic::Ordering::SeqCst);
     }
     log.ev(json!({"e":"cli_built","rejected":rejected}));
@@ -533,9 +551,10 @@ pub fn gen(seed: u64, tier: &str) -> Vec<Value> {
         let c_send = if !s_acc.is_empty() && rng.gen_bool(0.5) { s_acc[rng.gen_range(0..s_acc.len())] } else { "" };
         let (rq, wq, pe) = ([1usize, 2, 7, 64, 65536][rng.gen_range(0..5)], [1usize, 3, 9, 100, 65536][rng.gen_range(0..5)], [0usize, 0, 2, 3][rng.gen_range(0..4)]);
         let shim = if h2 { json!({"cap": 65536, "rq": rq, "wq": wq, "pend": pe}) } else { json!({"cap":0,"rq":0,"wq":0,"pend":0}) };
+        let warmup = ["", "", "", "full", "cancel"][rng.gen_range(0..5)];
         out.push(json!({"mode":"client","class": if h2 {"h2"} else {"inproc"},"transport": if h2 {"h2"} else {"inproc"},"shim":shim,"shape":shape,
             "server":{"send":s_send,"accept":s_acc,"max_dec":-1,"max_enc":-1},
-            "client":{"send":c_send,"accept":c_acc,"max_dec":-1,"max_enc":-1,"clone":rng.gen_bool(0.3),"warmup":rng.gen_bool(0.3)},
+            "client":{"send":c_send,"accept":c_acc,"max_dec":-1,"max_enc":-1,"clone":rng.gen_bool(0.3),"warmup":warmup},
             "req":{"meta":crate::labs::status::rand_meta(&mut rng),"msgs":req_msgs,"pend":(0..=nreq + 1).filter(|_| rng.gen_bool(0.25)).collect::<Vec<usize>>()},
             "script":rand_script(&mut rng, shape)}));
     }
